@@ -811,6 +811,7 @@ def collect_as_lists(
         # Translate original output names to renamed names
         renamed_values = node.map_outputs_from_original(result.values)
         for name in node.outputs:
-            if name in renamed_values:
-                collected[name].append(renamed_values[name])
+            # None placeholder keeps entry i aligned with item i when an item
+            # did not produce this output (e.g. it took a different branch)
+            collected[name].append(renamed_values.get(name))
     return collected
